@@ -30,12 +30,21 @@ Bridge to the connection model (Model/Conn.lean), last section: the scripts are 
 with what the connection put into the search's channel presents exactly the frames the server sent
 under the search's ID: items in order, then the result (finish() returns it), for all call sequences.
 Soundness (nothing foreign, order) holds outright (`C10_conn_stream_sound`); completeness of the
-channel is the explicit hypothesis `ConnStream.ChanComplete` (to be discharged by `C01_complete`).
+channel is the explicit hypothesis `ConnStream.ChanComplete` of `C10_conn_stream`.
+End to end (last section): `ChanComplete` is DISCHARGED from the completeness of routing (`C01_complete`'s
+invariant `CAt`): `C10_end_to_end`, `C10_end_to_end_items`, `C10_end_to_end_cut`, `C10_end_to_end_inv` have no
+hypothesis about the contents of the channel, only about the history: the search was not scrubbed /
+abandoned / displaced / dropped while the driver ran and its result was outstanding
+(`ConnStream.ServedAll`; not needed once the result is in the channel).  `C10_lost_search_incomplete`:
+without it the statement is false.  `C10_end_to_end_causal`: the same from the causal hypothesis "no step of
+the history is one of the four kinds that can take a search's registration or receiver away" (`lossEv`).
 -/
 import Ldap3V.Lemmas.StreamC10
 import Ldap3V.Lemmas.StreamPagedFinish
 import Ldap3V.Lemmas.GenPure
 import Ldap3V.Lemmas.ConnStreamTrace
+import Ldap3V.Lemmas.ConnStreamCut
+import Ldap3V.Lemmas.ConnStreamServed
 namespace Ldap3V.Stream
 open Spec
 
@@ -495,5 +504,295 @@ example :
         [.start ⟨1, true⟩, .next, .next, .next, .finish] =
       [.started .ok, .item (.ok (some ⟨.entry, 70, none, []⟩)), .item (.err .endOfStream), .item (.ok none), .result cancelled] := by
   decide +kernel
+
+/-! ### end to end: `ChanComplete` discharged from the completeness of routing (C01)
+
+The situation of `C01_complete`: ANY history `pre`, after which the driver is running and the request at
+the head of its queue is the search `o` (operation `i`, channel `c`); the driver handles it (`drvOp b`)
+at read position `p0 = s0.pos`; then ANYTHING happens (`post`).  `sent` = the frames under `o`'s ID among
+`srvLog[p0 .. pos)` of the final state, in order (`ConnStream.sentFrom s p0 o.id`).
+
+No hypothesis about the channel's contents is left.  What is needed instead, and only when the final
+result is not in the channel, is that the search was not LOST: `ConnStream.ServedAll N pre b post c o.id`
+— at every moment after the driver took the request at which the driver was running and the
+SearchResultDone had not been delivered, the search was still registered and its receiver alive
+(`ConnStream.Served`; decidable on a concrete history).  It excludes: a scrub (a `next()` or `op_call`
+time-out, `finish()` before the end, a stale scrub for a reused ID), an Abandon naming the ID, a later
+search taking over the ID (wrap, F13), a receiver dropped before a further frame came.  For those the
+statement is false (`C10_lost_search_incomplete`): the driver drops later frames under the ID as
+unmatched.  No schedule hypothesis (`FreshRun`) is needed, so there is no `_nowrap` variant. -/
+
+/-- End to end, all call sequences.  If the SearchResultDone is in the channel, or the driver has ended
+and the search was served until then, a stream — direct, or behind EntriesOnly — fed by the channel
+answers EVERY call sequence as the specification cursor on the view of `sent`: the server's entries /
+references / intermediate messages under the search's ID from `p0` on, item for item, in order, then
+`Ok(None)` and `finish()` returns the server's result; if the connection ended first,
+`Err(EndOfStream)` after the last item and `finish()` returns the synthetic rc 88. -/
+theorem C10_end_to_end (D : ConnStream.Content) (N : Nat) (pre post : List Conn.Ev) (b : Bool) (i c : Nat) (o : Conn.Op)
+    (entriesOnly : Bool) (h : Handle) (q : Query) (calls : List Call) :
+    let s0 := Conn.run (Conn.init N) pre
+    let s := Conn.run (Conn.init N) (pre ++ Conn.Ev.drvOp b :: post)
+    s0.drv = .running → s0.opQ.head? = some i → s0.ops[i]? = some o → o.chan = some c →
+    ∀ ch, s.chans[c]? = some ch →
+      ((∃ f, Conn.Item.done f ∈ ch.items) ∨ (s.drv ≠ .running ∧ ConnStream.ServedAll N pre b post c o.id)) →
+      run (init (streamChain entriesOnly) h [.script (ConnStream.fullScript D s c)]) (.start q :: calls) =
+        Cursor.run (if q.filterOk then .ok else .err .filterParsing)
+          (Cursor.ofView
+            (if entriesOnly then eoView (ConnStream.sentView D false (ConnStream.sentFrom s s0.pos o.id))
+             else ConnStream.sentView D false (ConnStream.sentFrom s s0.pos o.id)))
+          (.start q :: calls) := by
+  intro s0 s hd hq ho hc ch hch hend
+  have hwf := ConnStream.ChanWF.run N (pre ++ Conn.Ev.drvOp b :: post)
+  have hcomp : ConnStream.ChanComplete s ch o s0.pos :=
+    ConnStream.chanComplete_of N pre post b hd hq ho hc hch (hend.imp id (·.2)) o rfl
+  have hend' : s.drv ≠ .running ∨ ∃ f, Conn.Item.done f ∈ ch.items := by
+    rcases hend with h1 | ⟨h2, _⟩
+    · exact Or.inr h1
+    · exact Or.inl h2
+  rw [← ConnStream.sentView_ended D hwf hch hcomp hend']
+  exact ConnStream.conn_stream_refines D hch (hwf.get hch) hcomp entriesOnly h q calls
+
+/-- The same at ANY moment of a served search (still in progress, read to the end, or cut off): the view
+ends in the server's result if it has come, in `Err(EndOfStream)` if the channel has no sender left
+(`chanOpen = false`), and in an endless wait otherwise. -/
+theorem C10_end_to_end_any (D : ConnStream.Content) (N : Nat) (pre post : List Conn.Ev) (b : Bool) (i c : Nat) (o : Conn.Op)
+    (entriesOnly : Bool) (h : Handle) (q : Query) (calls : List Call) :
+    let s0 := Conn.run (Conn.init N) pre
+    let s := Conn.run (Conn.init N) (pre ++ Conn.Ev.drvOp b :: post)
+    s0.drv = .running → s0.opQ.head? = some i → s0.ops[i]? = some o → o.chan = some c →
+    ∀ ch, s.chans[c]? = some ch →
+      ((∃ f, Conn.Item.done f ∈ ch.items) ∨ ConnStream.ServedAll N pre b post c o.id) →
+      run (init (streamChain entriesOnly) h [.script (ConnStream.fullScript D s c)]) (.start q :: calls) =
+        Cursor.run (if q.filterOk then .ok else .err .filterParsing)
+          (Cursor.ofView
+            (if entriesOnly then eoView (ConnStream.sentView D (Conn.chanOpen s c) (ConnStream.sentFrom s s0.pos o.id))
+             else ConnStream.sentView D (Conn.chanOpen s c) (ConnStream.sentFrom s s0.pos o.id)))
+          (.start q :: calls) := by
+  intro s0 s hd hq ho hc ch hch hsv
+  have hwf := ConnStream.ChanWF.run N (pre ++ Conn.Ev.drvOp b :: post)
+  have hcomp : ConnStream.ChanComplete s ch o s0.pos := ConnStream.chanComplete_of N pre post b hd hq ho hc hch hsv o rfl
+  exact ConnStream.conn_stream_refines D hch (hwf.get hch) hcomp entriesOnly h q calls
+
+/-- End to end, spelled out for a search whose result the driver has read: `sent = its ++ fd :: rest`, `its`
+item frames, `fd` the well-formed SearchResultDone.  Hypotheses on the history and on what the SERVER
+sent only (`ServedAll` up to the final state, or the Done in the channel).  Direct stream: `its.length`
+calls of `next()` return the frames of `its` one by one, the next returns `Ok(None)`, `finish()` returns
+`fd`'s result.  `Ldap::search`: exactly the entries among `its` in order, and `fd`'s result with the URIs
+of the references appended to its referral list. -/
+theorem C10_end_to_end_items (D : ConnStream.Content) (N : Nat) (pre post : List Conn.Ev) (b : Bool) (i c : Nat) (o : Conn.Op)
+    (h : Handle) (q : Query) (hq : q.filterOk = true) :
+    let s0 := Conn.run (Conn.init N) pre
+    let s := Conn.run (Conn.init N) (pre ++ Conn.Ev.drvOp b :: post)
+    s0.drv = .running → s0.opQ.head? = some i → s0.ops[i]? = some o → o.chan = some c →
+    ∀ ch, s.chans[c]? = some ch →
+      ((∃ f, Conn.Item.done f ∈ ch.items) ∨ ConnStream.ServedAll N pre b post c o.id) →
+      ∀ (its : List Conn.Frame) (fd : Conn.Frame) (rest : List Conn.Frame),
+        ConnStream.sentFrom s s0.pos o.id = its ++ fd :: rest →
+        (∀ f ∈ its, ConnStream.isItemOp f.op = true) → fd.op = 5 → fd.good = true →
+        run (init [] h [.script (ConnStream.fullScript D s c)])
+            (.start q :: (List.replicate (its.length + 1) .next ++ [.finish])) =
+          .started .ok :: (its.map (fun f => Output.item (.ok (some (ConnStream.itemOf D f)))) ++
+            [.item (.ok none), .result (ConnStream.resOf D fd)]) ∧
+        ((∀ f ∈ its, f.op = 19 → D.uris f.tok ≠ none) →
+          search h [.script (ConnStream.fullScript D s c)] q =
+            .ok ((its.map (ConnStream.itemOf D)).filter fun i => i.kind == .entry)
+              { ConnStream.resOf D fd with refs := (ConnStream.resOf D fd).refs ++ refUris (its.map (ConnStream.itemOf D)) }) := by
+  intro s0 s hd hq' ho hc ch hch hsv its fd rest hsent hi h5 hg
+  have hwf := ConnStream.ChanWF.run N (pre ++ Conn.Ev.drvOp b :: post)
+  have hcomp : ConnStream.ChanComplete s ch o s0.pos := ConnStream.chanComplete_of N pre post b hd hq' ho hc hch hsv o rfl
+  have hshape := ConnStream.fullScript_shape D hch (hwf.get hch) hcomp hsent hi h5 hg
+  rw [hshape]
+  refine ⟨?_, fun hu => ?_⟩
+  · have := ConnStream.run_direct_items_done h q hq (its.map (ConnStream.itemOf D)) (ConnStream.resOf D fd)
+      (ConnStream.closedTail s c) []
+    simp only [List.length_map] at this
+    rw [this]
+    simp [Function.comp_def]
+  · apply C10_search h q hq
+    intro x hx hk
+    obtain ⟨f, hf, rfl⟩ := List.mem_map.mp hx
+    have h19 : f.op = 19 := by
+      simp only [ConnStream.itemOf, ConnStream.kindOfOp] at hk
+      split at hk
+      · assumption
+      · split at hk <;> cases hk
+    exact hu f hf h19
+
+/-- End to end, spelled out for a search cut off by the end of the connection: the driver has ended, the
+search was served until then, and `sent = its ++ tl`: item frames, then nothing more or a frame the
+driver does not hand on (`CutTail`: e.g. the malformed frame that ended the connection, fix F4).  A direct
+stream returns the frames of `its` one by one, then `Err(EndOfStream)`, then `Ok(None)` as often as
+asked, and `finish()` returns the synthetic "user cancelled" result (rc 88). -/
+theorem C10_end_to_end_cut (D : ConnStream.Content) (N : Nat) (pre post : List Conn.Ev) (b : Bool) (i c : Nat) (o : Conn.Op)
+    (h : Handle) (q : Query) (hq : q.filterOk = true) (k : Nat) :
+    let s0 := Conn.run (Conn.init N) pre
+    let s := Conn.run (Conn.init N) (pre ++ Conn.Ev.drvOp b :: post)
+    s0.drv = .running → s0.opQ.head? = some i → s0.ops[i]? = some o → o.chan = some c →
+    ∀ ch, s.chans[c]? = some ch → s.drv ≠ .running → ConnStream.ServedAll N pre b post c o.id →
+      ∀ (its tl : List Conn.Frame), ConnStream.sentFrom s s0.pos o.id = its ++ tl →
+        (∀ f ∈ its, ConnStream.isItemOp f.op = true) → ConnStream.CutTail tl →
+        run (init [] h [.script (ConnStream.fullScript D s c)])
+            (.start q :: (List.replicate (its.length + 1 + k) .next ++ [.finish])) =
+          .started .ok :: (its.map (fun f => Output.item (.ok (some (ConnStream.itemOf D f)))) ++
+            [.item (.err .endOfStream)] ++ List.replicate k (.item (.ok none)) ++ [.result cancelled]) := by
+  intro s0 s hd hq' ho hc ch hch hdead hsv its tl hsent hi ht
+  have hwf := ConnStream.ChanWF.run N (pre ++ Conn.Ev.drvOp b :: post)
+  have hcomp : ConnStream.ChanComplete s ch o s0.pos :=
+    ConnStream.chanComplete_of N pre post b hd hq' ho hc hch (Or.inr hsv) o rfl
+  rw [ConnStream.fullScript_cut D hwf hch hcomp hdead hsent hi ht]
+  have := ConnStream.run_direct_items_closed h q hq (its.map (ConnStream.itemOf D)) [] [] k
+  simp only [List.length_map] at this
+  rw [this]
+  simp [Function.comp_def]
+
+/-- End to end as an invariant of every reachable state (start position existentially quantified):
+EVERY history `evs`, every search channel `c` with its operation record `o`; the driver has ended or the
+result is in the channel; the result is in the channel or the search was served throughout
+(`ServedHist`).  Then there is a read position `p0` such that the stream fed by the channel presents
+exactly the frames under the search's ID read from `p0` on: `C10_conn_stream` with `hcomp` discharged. -/
+theorem C10_end_to_end_inv (D : ConnStream.Content) (N : Nat) (evs : List Conn.Ev) (c : Nat) (ch : Conn.Chan) (o : Conn.Op)
+    (entriesOnly : Bool) (h : Handle) (q : Query) (calls : List Call)
+    (hc : (Conn.run (Conn.init N) evs).chans[c]? = some ch)
+    (ho : (Conn.run (Conn.init N) evs).ops[ch.opIdx]? = some o)
+    (hsv : (∃ f, Conn.Item.done f ∈ ch.items) ∨ ConnStream.ServedHist N evs c)
+    (hend : (Conn.run (Conn.init N) evs).drv ≠ .running ∨ ∃ f, Conn.Item.done f ∈ ch.items) :
+    ∃ p0, p0 ≤ (Conn.run (Conn.init N) evs).pos ∧
+      run (init (streamChain entriesOnly) h [.script (ConnStream.fullScript D (Conn.run (Conn.init N) evs) c)]) (.start q :: calls) =
+        Cursor.run (if q.filterOk then .ok else .err .filterParsing)
+          (Cursor.ofView
+            (if entriesOnly then eoView (ConnStream.sentView D false (ConnStream.sentFrom (Conn.run (Conn.init N) evs) p0 o.id))
+             else ConnStream.sentView D false (ConnStream.sentFrom (Conn.run (Conn.init N) evs) p0 o.id)))
+          (.start q :: calls) := by
+  obtain ⟨p0, hp0, hcomp⟩ := ConnStream.chanComplete_inv N evs c ch o hc ho hsv
+  exact ⟨p0, hp0, C10_conn_stream D N evs c ch o p0 entriesOnly h q calls hc ho hcomp hend⟩
+
+/-! non-vacuity: two interleaved searches (IDs 1 and 2, channels 0 and 1) and two unsolicited frames (IDs 9, 7).
+The driver registers search 1 at read position 0, reads the unsolicited frame, registers search 2 at read
+position 1.  The server's answers arrive interleaved; search 1 gets its result; then the server closes the
+connection and the driver ends: search 2 is cut off after two items. -/
+def e2eHead : List Conn.Ev :=
+  [.alloc .search, .enqueue 0 none, .alloc .search, .enqueue 1 none, .srvSend ⟨9, 4, 60, false⟩]
+
+def e2eMid : List Conn.Ev := [.poll 0, .drvResp]
+
+def e2eTail : List Conn.Ev :=
+  [.poll 1, .srvSend ⟨1, 4, 61, false⟩, .srvSend ⟨2, 4, 62, false⟩, .srvSend ⟨1, 19, 63, false⟩, .srvSend ⟨7, 11, 64, true⟩,
+   .srvSend ⟨2, 25, 65, false⟩, .srvSend ⟨1, 5, 66, true⟩, .drvResp, .recv 0 none, .drvResp, .drvResp, .drvResp, .drvResp, .drvResp,
+   .srvClose, .drvResp, .recv 1 none]
+
+def e2eD : ConnStream.Content :=
+  ⟨fun t => if t = 63 then some [[0x6c]] else none, fun t => if t = 66 then [⟨false, none, 9⟩] else [], fun _ => 0, fun _ => [[0x61]]⟩
+
+/-- search 1 = `pre := e2eHead`, `post := e2eMid ++ drvOp true :: e2eTail`, operation 0, channel 0, `p0 = 0`;
+search 2 = `pre := e2eHead ++ drvOp true :: e2eMid`, `post := e2eTail`, operation 1, channel 1, `p0 = 1`:
+the hypotheses of `C10_end_to_end` / `_items` / `_cut` hold (both disjuncts of `hend` for search 1) -/
+example :
+    let s0 := Conn.run (Conn.init 100) e2eHead
+    let s0' := Conn.run (Conn.init 100) (e2eHead ++ Conn.Ev.drvOp true :: e2eMid)
+    let s := Conn.run (Conn.init 100) (e2eHead ++ Conn.Ev.drvOp true :: (e2eMid ++ Conn.Ev.drvOp true :: e2eTail))
+    (s0.drv = .running ∧ s0.opQ.head? = some 0 ∧ (s0.ops[0]?.map fun o => (o.id, o.chan)) = some (1, some 0) ∧ s0.pos = 0) ∧
+    (s0'.drv = .running ∧ s0'.opQ.head? = some 1 ∧ (s0'.ops[1]?.map fun o => (o.id, o.chan)) = some (2, some 1) ∧ s0'.pos = 1) ∧
+    s.drv = .endedOk ∧
+    ConnStream.ServedAll 100 e2eHead true (e2eMid ++ Conn.Ev.drvOp true :: e2eTail) 0 1 ∧
+    ConnStream.ServedAll 100 (e2eHead ++ Conn.Ev.drvOp true :: e2eMid) true e2eTail 1 2 ∧
+    (s.chans.map fun ch => (ch.items.map Conn.itemFrame, ch.taken)) =
+      [([⟨1, 4, 61, false⟩, ⟨1, 19, 63, false⟩, ⟨1, 5, 66, true⟩], 1), ([⟨2, 4, 62, false⟩, ⟨2, 25, 65, false⟩], 1)] ∧
+    ConnStream.sentFrom s 0 1 = [⟨1, 4, 61, false⟩, ⟨1, 19, 63, false⟩] ++ ⟨1, 5, 66, true⟩ :: [] ∧
+    ConnStream.sentFrom s 1 2 = [⟨2, 4, 62, false⟩, ⟨2, 25, 65, false⟩] ++ [] ∧ ConnStream.CutTail [] := by
+  refine ⟨by decide, by decide, by decide, by decide, by decide, by decide, by decide, by decide, Or.inl rfl⟩
+
+/-- … and the conclusions, evaluated: search 1 read to the end (direct stream, and `Ldap::search`), search 2 cut off -/
+example :
+    let s := Conn.run (Conn.init 100) (e2eHead ++ Conn.Ev.drvOp true :: (e2eMid ++ Conn.Ev.drvOp true :: e2eTail))
+    run (init [] {} [.script (ConnStream.fullScript e2eD s 0)]) [.start ⟨1, true⟩, .next, .next, .next, .finish] =
+      [.started .ok, .item (.ok (some ⟨.entry, 61, none, []⟩)), .item (.ok (some ⟨.ref, 63, some [[0x6c]], []⟩)),
+       .item (.ok none), .result ⟨0, [[0x61]], [⟨false, none, 9⟩], .server 66⟩] ∧
+    search {} [.script (ConnStream.fullScript e2eD s 0)] ⟨1, true⟩ =
+      .ok [⟨.entry, 61, none, []⟩] ⟨0, [[0x61], [0x6c]], [⟨false, none, 9⟩], .server 66⟩ ∧
+    run (init [] {} [.script (ConnStream.fullScript e2eD s 1)]) [.start ⟨1, true⟩, .next, .next, .next, .next, .finish] =
+      [.started .ok, .item (.ok (some ⟨.entry, 62, none, []⟩)), .item (.ok (some ⟨.inter, 65, none, []⟩)),
+       .item (.err .endOfStream), .item (.ok none), .result cancelled] := by decide +kernel
+
+/-! non-vacuity of the other way a search is cut off: a malformed SearchResultDone under search 1's ID ends
+the driver (fix F4).  Search 1: `sent = [entry] ++ bad :: …` (the bad frame IS consumed; `CutTail`, second case);
+search 2, interleaved: `sent = [entry] ++ []`.  Both served until the end; both streams: the entry, then
+`Err(EndOfStream)`, `finish()` = rc 88. -/
+example :
+    let pre1 : List Conn.Ev := [.alloc .search, .enqueue 0 none, .alloc .search, .enqueue 1 none]
+    let tail : List Conn.Ev := [.poll 0, .poll 1, .srvSend ⟨2, 4, 80, false⟩, .srvSend ⟨1, 4, 81, false⟩, .srvSend ⟨1, 5, 82, false⟩,
+      .srvSend ⟨2, 4, 83, false⟩, .drvResp, .drvResp, .drvResp, .drvResp]
+    let s := Conn.run (Conn.init 100) (pre1 ++ Conn.Ev.drvOp true :: Conn.Ev.drvOp true :: tail)
+    s.drv = .endedErr ∧ s.pos = 3 ∧
+    ConnStream.ServedAll 100 pre1 true (Conn.Ev.drvOp true :: tail) 0 1 ∧
+    ConnStream.ServedAll 100 (pre1 ++ [Conn.Ev.drvOp true]) true tail 1 2 ∧
+    ConnStream.sentFrom s 0 1 = [⟨1, 4, 81, false⟩] ++ [⟨1, 5, 82, false⟩] ∧
+    ConnStream.CutTail [⟨1, 5, 82, false⟩] ∧
+    ConnStream.sentFrom s 0 2 = [⟨2, 4, 80, false⟩] ++ [] ∧
+    run (init [] {} [.script (ConnStream.fullScript e2eD s 0)]) [.start ⟨1, true⟩, .next, .next, .next, .finish] =
+      [.started .ok, .item (.ok (some ⟨.entry, 81, none, []⟩)), .item (.err .endOfStream), .item (.ok none), .result cancelled] ∧
+    run (init [] {} [.script (ConnStream.fullScript e2eD s 1)]) [.start ⟨1, true⟩, .next, .next, .next, .finish] =
+      [.started .ok, .item (.ok (some ⟨.entry, 80, none, []⟩)), .item (.err .endOfStream), .item (.ok none), .result cancelled] := by
+  refine ⟨by decide, by decide, by decide, by decide, by decide, Or.inr ⟨_, _, rfl, by decide⟩, by decide, by decide +kernel,
+    by decide +kernel⟩
+
+/-- the hypotheses of `C10_end_to_end_inv` for the same history, both channels -/
+example :
+    ConnStream.ServedHist 100 (e2eHead ++ Conn.Ev.drvOp true :: (e2eMid ++ Conn.Ev.drvOp true :: e2eTail)) 0 ∧
+    ConnStream.ServedHist 100 (e2eHead ++ Conn.Ev.drvOp true :: (e2eMid ++ Conn.Ev.drvOp true :: e2eTail)) 1 := by
+  constructor <;> decide
+
+/-- Why `ServedAll`: a search that LOST its registration while the driver went on is not complete.  Search 1
+gets an entry; a `next()` with a deadline times out and asks for a scrub; the driver scrubs the ID; the
+server's next entry under ID 1 is dropped as unmatched; the connection ends.  The channel holds one frame,
+the server sent two: `ChanComplete` fails (for every start position), and so does `ServedAll`. -/
+theorem C10_lost_search_incomplete :
+    let pre : List Conn.Ev := [.alloc .search, .enqueue 0 none]
+    let post : List Conn.Ev := [.poll 0, .srvSend ⟨1, 4, 70, false⟩, .drvResp, .recv 0 none, .tick 5, .recv 0 (some 3),
+      .drvScrub, .srvSend ⟨1, 4, 71, false⟩, .drvResp, .srvClose, .drvResp]
+    let s := Conn.run (Conn.init 100) (pre ++ Conn.Ev.drvOp true :: post)
+    s.drv = .endedOk ∧
+    s.chans = [{ opIdx := 0, items := [.entry ⟨1, 4, 70, false⟩], taken := 1, timedOut := true }] ∧
+    ConnStream.sentFrom s 0 1 = [⟨1, 4, 70, false⟩, ⟨1, 4, 71, false⟩] ∧
+    ¬ ConnStream.ChanComplete s { opIdx := 0, items := [.entry ⟨1, 4, 70, false⟩], taken := 1, timedOut := true } bridgeOp 0 ∧
+    ¬ ConnStream.ServedAll 100 pre true post 0 1 := by
+  refine ⟨by decide, by decide, by decide, by decide, by decide⟩
+
+/-- `C10_end_to_end` from a CAUSAL hypothesis.  `ServedAll` (a statement about the states of the history)
+follows from a statement about its steps: right after the driver's step the search is registered with a
+live receiver (or the write failed and the driver ended) — `Served s1` —, and none of the later steps is a
+loss step (`ConnStream.lossEv`, an exhaustive list, `ConnStream.served_step`): the caller's `finish()` of this
+stream; a poll of the search's `op_call` that finds its reply sender dropped or its deadline passed; the
+driver processing a scrub request naming the search's ID; the driver handling an Abandon naming the ID,
+or registering another search under the same ID. -/
+theorem C10_end_to_end_causal (D : ConnStream.Content) (N : Nat) (pre post : List Conn.Ev) (b : Bool) (i c : Nat) (o : Conn.Op)
+    (entriesOnly : Bool) (h : Handle) (q : Query) (calls : List Call) :
+    let s0 := Conn.run (Conn.init N) pre
+    let s1 := Conn.run (Conn.init N) (pre ++ [Conn.Ev.drvOp b])
+    let s := Conn.run (Conn.init N) (pre ++ Conn.Ev.drvOp b :: post)
+    s0.drv = .running → s0.opQ.head? = some i → s0.ops[i]? = some o → o.chan = some c →
+    ∀ ch, s.chans[c]? = some ch → s.drv ≠ .running →
+      ConnStream.Served s1 c o.id → ConnStream.noLoss c i o.id s1 post = true →
+      run (init (streamChain entriesOnly) h [.script (ConnStream.fullScript D s c)]) (.start q :: calls) =
+        Cursor.run (if q.filterOk then .ok else .err .filterParsing)
+          (Cursor.ofView
+            (if entriesOnly then eoView (ConnStream.sentView D false (ConnStream.sentFrom s s0.pos o.id))
+             else ConnStream.sentView D false (ConnStream.sentFrom s s0.pos o.id)))
+          (.start q :: calls) := by
+  intro s0 s1 s hd hq ho hc ch hch hdead hS1 hN
+  exact C10_end_to_end D N pre post b i c o entriesOnly h q calls hd hq ho hc ch hch
+    (Or.inr ⟨hdead, ConnStream.servedAll_of_noLoss N pre post b hd hq ho hc hS1 hN⟩)
+
+/-- non-vacuity: in the history of the two interleaved searches no loss step occurs, for either search; in the
+history of `C10_lost_search_incomplete` the driver's scrub step is one -/
+example :
+    ConnStream.Served (Conn.run (Conn.init 100) (e2eHead ++ [Conn.Ev.drvOp true])) 0 1 ∧
+    ConnStream.noLoss 0 0 1 (Conn.run (Conn.init 100) (e2eHead ++ [Conn.Ev.drvOp true]))
+      (e2eMid ++ Conn.Ev.drvOp true :: e2eTail) = true ∧
+    ConnStream.Served (Conn.run (Conn.init 100) ((e2eHead ++ Conn.Ev.drvOp true :: e2eMid) ++ [Conn.Ev.drvOp true])) 1 2 ∧
+    ConnStream.noLoss 1 1 2 (Conn.run (Conn.init 100) ((e2eHead ++ Conn.Ev.drvOp true :: e2eMid) ++ [Conn.Ev.drvOp true])) e2eTail = true ∧
+    ConnStream.noLoss 0 0 1 (Conn.run (Conn.init 100) [.alloc .search, .enqueue 0 none, .drvOp true])
+      [.poll 0, .srvSend ⟨1, 4, 70, false⟩, .drvResp, .recv 0 none, .tick 5, .recv 0 (some 3),
+       .drvScrub, .srvSend ⟨1, 4, 71, false⟩, .drvResp, .srvClose, .drvResp] = false := by
+  refine ⟨by decide, by decide, by decide, by decide, by decide⟩
 
 end Ldap3V.Stream
